@@ -645,10 +645,9 @@ func (g *Gen) signalOps(p *Pool) []Op {
 		add("NewEnumSignal", g.name(), g.r.pick(p.of(KEnum)))
 	}
 	counts := []int64{1, 2, 4}
-	sizes := []int64{8, 16, 24}
-	for i := 0; i < 3; i++ {
-		add("NewMuxSignal", g.name(), counts[g.r.below(3)], sizes[g.r.below(3)])
-	}
+	add("NewMuxSignal", g.name(), counts[g.r.below(2)], 8)
+	add("NewMuxSignal", g.name(), counts[g.r.below(3)], 16)
+	add("NewMuxSignal", g.name(), counts[g.r.below(3)], 32)
 	return ops
 }
 
@@ -674,13 +673,42 @@ func extraTemplates() []template {
 		}},
 		{"MsgRemoveAllSignals", 2, func(g *Gen, p *Pool) (Op, bool) { return mk("MsgRemoveAllSignals", g.r.pick(p.of(KMsg))) }},
 		{"SigUpdateName", 9, func(g *Gen, p *Pool) (Op, bool) { return mk("SigUpdateName", g.r.pick(p.of(KSig)), g.name()) }},
-		{"MuxInsertSignal", 14, func(g *Gen, p *Pool) (Op, bool) {
+		{"MuxInsertSignal", 16, func(g *Gen, p *Pool) (Op, bool) {
 			muxes := sigsOfKind(p, acme.SignalKindMultiplexer)
 			if len(muxes) == 0 {
 				return none, false
 			}
 			mx := g.r.pick(muxes)
 			m := p.mux(mx)
+			if g.r.chance(70) {
+				// plausible call: a signal that fits a group, a free position, group ids in range
+				var fit []int
+				for _, h := range p.of(KSig) {
+					if int64(h) != mx && p.ents[h-1].Sig.GetSize() <= m.GroupSize() {
+						fit = append(fit, h)
+					}
+				}
+				if len(fit) == 0 {
+					return none, false
+				}
+				sg := g.r.pick(fit)
+				room := m.GroupSize() - p.sig(sg).GetSize()
+				start := 0
+				if room > 0 {
+					start = []int{0, 0, room, room / 2, 4, 8}[g.r.below(6)]
+					if start > room {
+						start = 0
+					}
+				}
+				args := []int64{mx, sg, int64(start)}
+				if !g.r.chance(25) {
+					args = append(args, int64(g.r.below(m.GroupCount())))
+					if m.GroupCount() > 1 && g.r.chance(30) {
+						args = append(args, int64(g.r.below(m.GroupCount())))
+					}
+				}
+				return mk("MuxInsertSignal", args...)
+			}
 			args := []int64{mx, g.sigPtr(p), int64([]int{0, 0, 4, 8, 12, -1}[g.r.below(6)])}
 			if !g.r.chance(30) {
 				n := 1 + g.r.below(2)
@@ -701,7 +729,7 @@ func extraTemplates() []template {
 			}
 			return mk("MuxRemoveSignal", mx, g.anyHandle(p))
 		}},
-		{"MuxClearGroup", 3, func(g *Gen, p *Pool) (Op, bool) {
+		{"MuxClearGroup", 2, func(g *Gen, p *Pool) (Op, bool) {
 			muxes := sigsOfKind(p, acme.SignalKindMultiplexer)
 			if len(muxes) == 0 {
 				return none, false
@@ -709,7 +737,7 @@ func extraTemplates() []template {
 			mx := g.r.pick(muxes)
 			return mk("MuxClearGroup", mx, int64(g.r.below(p.mux(mx).GroupCount()+2)-1))
 		}},
-		{"MuxClearAll", 2, func(g *Gen, p *Pool) (Op, bool) {
+		{"MuxClearAll", 1, func(g *Gen, p *Pool) (Op, bool) {
 			muxes := sigsOfKind(p, acme.SignalKindMultiplexer)
 			if len(muxes) == 0 {
 				return none, false
